@@ -11,7 +11,7 @@ PROPS = ["C%02d" % i for i in range(1, 21)]
 
 def build_table():
     reg = registry()
-    L = ["| id | rules run by the check (own and shared) | obligations decided today (quick) | quick | thorough: seeded / repair inverses / refactorings silent / survey mutants reported |", "|----|----|----|----|----|"]
+    L = ["| id | rules run by the check (own and shared) | obligations decided today (quick) | quick | thorough: seeded / repair inverses / refactorings silent / mechanical transformations silent / survey mutants reported |", "|----|----|----|----|----|"]
     for p in PROPS:
         ev = json.load(open(os.path.join(V, "evidence", p + ".json")))
         cov = ev["coverage"]
@@ -20,7 +20,7 @@ def build_table():
         shared = [r for r in rules if not r.startswith(p + ".")]
         st = cov.get("selftest", {})
         known = len(cov.get("known_findings_printed", []))
-        thor = "%s / %s / %s / %s of %s" % (st.get("seeded_changes_reported", "?"), st.get("repair_inverses_reported", "?"), st.get("equivalents_silent", "?"), st.get("survey_reported", "?"), st.get("survey_mutants_with_recorded_violation", "?")) if st else "(run the thorough tier)"
+        thor = "%s / %s / %s / %s / %s of %s" % (st.get("seeded_changes_reported", "?"), st.get("repair_inverses_reported", "?"), st.get("equivalents_silent", "?"), st.get("mechanical_transformations_silent", "?"), st.get("survey_reported", "?"), st.get("survey_mutants_with_recorded_violation", "?")) if st else "(run the thorough tier)"
         n = cov["obligations"]
         if "deep_pass" in cov:
             n = "%d (+%d in the deep pass)" % (cov["obligations"] - cov["deep_pass"]["additional_obligations"], cov["deep_pass"]["additional_obligations"])
